@@ -241,6 +241,33 @@ def rule_size(ctx, f):
     ctx.floor("C10-G2", n, 1, "assignment of trailer.size in Storage::save")
 
 
+def rule_order(ctx, f):
+    ctx.rule("C10-ORDER", "save: everything that can still create or update objects (the trailer writer gets the storage as its updater and creates the /Info "
+             "object) runs before the pending objects are collected for writing; afterwards the storage is only handed to its own promise / fulfill of the "
+             "cross-reference stream")
+    from cfg import CFG
+    n = 0
+    for b in f.bodies.values():
+        if not (b["id"].endswith("::save") and (b.get("impl") or {}).get("self", "").startswith("file::Storage<")):
+            continue
+        cfg = CFG(b)
+        coll = [bi for bi, t in F.calls(b) if last_seg(F.callee_name(t)) in ("iter", "into_iter", "drain", "keys", "values", "iter_mut") and
+                any("HashMap<u64, (primitive::Primitive" in ty["s"] for ty in t["arg_tys"][:1])]
+        if not ctx.floor("C10-ORDER", len(coll), 1, "collection of the pending changes in save"):
+            continue
+        for bi, t in F.calls(b):
+            if not any(ty["k"] == "refmut" and "file::Storage<" in ty["s"] for ty in t["arg_tys"]):
+                continue
+            nm = last_seg(F.callee_name(t))
+            n += 1
+            late = any(cfg.can_reach(c, bi) for c in coll)
+            own = nm in ("promise", "fulfill") and "file::Storage<" in F.callee_name(t)
+            ctx.check(own or not late, "C10-ORDER", b["id"] + "#" + nm, "%s gets the storage as updater after the pending objects were collected: what it creates "
+                      "(e.g. the /Info object of the trailer) is referenced by the written file but never written" % nm, t["span"],
+                      detail="%s %s the collection of `changes`" % (nm, "is the storage's own bookkeeping after" if own else "precedes"))
+    ctx.floor("C10-ORDER", n, 3, "calls in save that hand on the storage (to_dict, promise, fulfill)")
+
+
 def run(ctx):
     f = F.load("default")
     ctx.count("bodies", len(f.bodies))
@@ -249,6 +276,7 @@ def run(ctx):
     rule_length(ctx, f)
     rule_header(ctx, f)
     rule_size(ctx, f)
+    rule_order(ctx, f)
     adj.rule_framing(ctx, f, "C10")
     c09.rule_units(ctx, f) if False else None
     # written positions (shared with C09): registered under this property's own rule id
